@@ -366,8 +366,7 @@ def history(ctx, case, rng):
                 new.setdefault(lbl, [])
             thunk, name = (lambda: m.fill_taxa()), "fill_taxa"
         elif op in ("add", "replace", "update", "extend", "extend_new", "extend_matrix"):
-            if i == j:
-                continue
+            # (i == j: the matrix is its own argument - a repeated object; extending then doubles every row)
             for k, v in orows.items():
                 if op == "add" and k not in new:
                     new[k] = list(v)
